@@ -152,10 +152,32 @@ var c18Ops = []c18op{
 		err := q.Unmarshal(B)
 		return fmt.Sprintf("%s|%v", ref.Dump(q), err), q
 	}},
+	{name: "MarshalList[p,q]", ro: true, run: func(p rtcp.Packet, _ string, _ []byte) (string, interface{}) {
+		q := &rtcp.TransportLayerNack{SenderSSRC: 0x51525354, MediaSSRC: 0x61626364, Nacks: []rtcp.NackPair{{PacketID: 0x7172, LostPackets: 0x8182}}}
+		b, err := rtcp.Marshal([]rtcp.Packet{p, q})
+		return fmt.Sprintf("%x|%v", b, err), b
+	}},
+	{name: "DgramDecodeThenMarshalList(B||F)", ro: true, run: func(_ rtcp.Packet, _ string, B []byte) (string, interface{}) {
+		// the arena holds a second frame F right after B: decode both, then marshal the first
+		// decoded packet followed by a different packet
+		if cap(B) < len(B)+len(c18SecondFrame) {
+			return "no room", nil
+		}
+		ps, err := rtcp.Unmarshal(B[:len(B)+len(c18SecondFrame)])
+		if err != nil || len(ps) == 0 {
+			return "decode: " + fmt.Sprint(err), nil
+		}
+		q := &rtcp.TransportLayerNack{SenderSSRC: 0x51525354, MediaSSRC: 0x61626364, Nacks: []rtcp.NackPair{{PacketID: 0x7172, LostPackets: 0x8182}}}
+		b, err := rtcp.Marshal([]rtcp.Packet{ps[0], q})
+		return fmt.Sprintf("%x|%v", b, err), b
+	}},
 	{name: "DecodeThenMarshal(B)", ro: true, run: func(_ rtcp.Packet, typ string, B []byte) (string, interface{}) { return decodeThenMarshal(typ, B, 0) }},
 	{name: "DecodeThenMarshal(B+1)", ro: true, run: func(_ rtcp.Packet, typ string, B []byte) (string, interface{}) { return decodeThenMarshal(typ, B, 1) }},
 	{name: "DecodeThenMarshal(B+3)", ro: true, run: func(_ rtcp.Packet, typ string, B []byte) (string, interface{}) { return decodeThenMarshal(typ, B, 3) }},
 }
+
+// c18SecondFrame follows the input buffer B inside its arena (a PLI frame).
+var c18SecondFrame = []byte{0x81, 206, 0, 2, 0x11, 0x12, 0x13, 0x14, 0x21, 0x22, 0x23, 0x24}
 
 // decodeThenMarshal decodes the buffer (optionally extended by a few octets of
 // its own spare capacity, giving an unaligned length) with the type's own
@@ -257,9 +279,10 @@ func c18Histories(c *bx.Ctx) {
 		// buffer sits inside a larger arena, so writes past a slice's length are observable
 		mkp := func() rtcp.Packet { p := o.mk(); ref.PadCapacity(p, 3); return p }
 		mkB := func() (arena, B []byte) {
-			arena = make([]byte, len(B0)+16)
+			arena = make([]byte, len(B0)+len(c18SecondFrame)+16)
 			copy(arena, B0)
-			for i := len(B0); i < len(arena); i++ {
+			copy(arena[len(B0):], c18SecondFrame)
+			for i := len(B0) + len(c18SecondFrame); i < len(arena); i++ {
 				arena[i] = 0xEE
 			}
 			return arena, arena[:len(B0):len(arena)]
@@ -312,8 +335,8 @@ func c18Histories(c *bx.Ctx) {
 					c.Report(keyJoin("C18/history", o.typ, op.name, "panic"), "an operation panics in a history: "+msg, rp(step, "result", "panic: "+msg))
 					return
 				}
-				if op.name == "Marshal" {
-					marshalled = true
+				if op.name == "Marshal" || op.name == "MarshalList[p,q]" {
+					marshalled = true // both marshal p itself (ExtendedReport: fills block headers, documented)
 				}
 				st := 0
 				if xr && marshalled {
